@@ -139,11 +139,13 @@ def run(ctx):
         small = [c for c in cases if c["pad"] == 0]
         keep = {}
         for c in big:
-            keep.setdefault((c["mode"], c["outcome"], c["real"], c["ft"], c["typer"], c["rc"], len(c["widths"]) > 0), []).append(c)
+            # per padding class: between 1500 and 70000 collected checks the optimal base width passes through every value (the two cost
+            # models - R1CS, PLONK - disagree on part of that range), so a class of its own for every modelled size
+            keep.setdefault((c["pad"], c["mode"], c["outcome"], c["real"], c["ft"], c["typer"], c["rc"], len(c["widths"]) > 0), []).append(c)
         bigsel = []
         for k, v in sorted(keep.items(), key=lambda kv: str(kv[0])):
             rnd.shuffle(v)
-            bigsel += v[:2]
+            bigsel += v[:1]
         cases = small + bigsel
     ctx.extra["protocol_cases"] = len(cases)
     # ---- M1 protocol + traces ---------------------------------------------------------------------------------
